@@ -17,6 +17,8 @@ CATEGORY_PROPS = {
     "viscontent": ["C02", "C12"],
     "visattr": ["C02"],
     "odd": ["C02"],
+    # live rows that no listing from the root reaches (orphans), or listed entries without a live row
+    "tree": ["C13"],
     "rowpos": ["C04"],
     "rowarith": ["C04"],
     # a call that failed in the real execution although tape/index moved (derived in run_specs)
@@ -49,6 +51,49 @@ def make_specs(seed, n, length, tier, prop):
         specs.append({"id": "%s-t%d-%d" % (prop, seed, i), "cfg": cfg, "conc": {"names": names, "chunks": chunks},
                       "seed": rng.randrange(1 << 40), "len": length, "comps": comps,
                       "maxdepth": rng.choice([2, 3, 4]), "pool": pool})
+    return specs
+
+
+def scripted_specs(prop, seed, tier):
+    """Fixed scenarios recorded on the real code and validated by TLC like the random traces (the expected
+    states come from the specification): sibling directories whose names match each other under SQL LIKE /
+    ASCII case folding, renames into the own subtree at depth, two handles on one file."""
+    rng = random.Random(seed * 7919 + 5)
+    def c(op, p, q=None, ch="", k=0):
+        return {"op": op, "p": p, "q": q or [], "c": ch, "k": k}
+    twins = [("a_", "ab"), ("a%", "ab"), ("a%", "a_"), ("log_1", "log-1"), ("Docs", "docs"), ("d", "d x"), ("x.y", "xzy"), ("ä", "a")]
+    scenarios = []
+    for x, y in twins:
+        names = {"k0": x, "k1": y, "k2": "f", "k3": "sub", "k4": "moved", "k5": "other"}
+        script = [c("Mkdir", ["k0"]), c("Mkdir", ["k1"]), c("WriteFile", ["k1", "k2"], ch="c1"), c("Mkdir", ["k1", "k3"]),
+                  c("WriteFile", ["k1", "k3", "k2"], ch="c2"), c("WriteFile", ["k0", "k2"], ch="c3"),
+                  c("Rename", ["k0"], ["k4"]), c("Stat", ["k1", "k2"]), c("Rename", ["k4"], ["k0"]),
+                  c("Chmod", ["k0"], k=1), c("RemoveAll", ["k0"]), c("List", ["k1"]), c("Mkdir", ["k0"]),
+                  c("Rename", ["k1"], ["k5"]), c("RemoveAll", ["k0"]), c("RemoveAll", ["k5"])]
+        scenarios.append(("twins", names, script, 3))
+    names = {"k0": "a", "k1": "b", "k2": "c", "k3": "d"}
+    scenarios.append(("selfrename", names,
+                      [c("Mkdir", ["k0"]), c("Mkdir", ["k0", "k1"]), c("WriteFile", ["k0", "k1", "k3"], ch="c1"), c("Rename", ["k0"], ["k0", "k1", "k2"]),
+                       c("Rename", ["k0"], ["k0", "k2"]), c("Rename", ["k0", "k1"], ["k0", "k1", "k2"]), c("MkdirAll", ["k0", "k1", "k2"]),
+                       c("Rename", ["k0"], ["k0", "k1", "k2", "k3"]), c("Rename", ["k0", "k1"], ["k2"]), c("Rename", ["k2"], ["k0", "k1"])], 4))
+    scenarios.append(("twohandles", names,
+                      [c("HOpen", ["k0"], ["h1"], k=14), c("HOpen", ["k0"], ["h2"], k=6), c("HWrite", ["k0"], ["h2"], ch="c1"), c("HClose", ["k0"], ["h2"]),
+                       c("HWrite", ["k0"], ["h1"], ch="c2"), c("HClose", ["k0"], ["h1"]), c("HOpen", ["k0"], ["h1"], k=18), c("Chmod", ["k0"], k=1),
+                       c("HWrite", ["k0"], ["h1"], ch="c3"), c("HSync", ["k0"], ["h1"]), c("Rename", ["k0"], ["k1"]), c("HWrite", ["k0"], ["h1"], ch="c1"),
+                       c("HClose", ["k0"], ["h1"]), c("WriteFile", ["k0"], ch="c2"), c("HClose", ["k0"], ["h1"])], 2))
+    specs = []
+    for i, (kind, names, script, depth) in enumerate(scenarios):
+        cfg = conc.config(rng, plain_bias=0.75, allow_pgp=(tier == "thorough"))
+        chunks = conc.chunks(rng, ["c1", "c2", "c3"], cfg["rs"], small=True)
+        sizes = set()
+        for ch in sorted(chunks):
+            while chunks[ch]["size"] in sizes or chunks[ch]["size"] == 0:
+                chunks[ch]["size"] += 3
+            sizes.add(chunks[ch]["size"])
+            if chunks[ch]["dist"] == "zeros":
+                chunks[ch]["dist"] = "random"
+        specs.append({"id": "%s-s%d-%s-%d" % (prop, seed, kind, i), "cfg": cfg, "conc": {"names": names, "chunks": chunks},
+                      "seed": 1, "len": len(script), "comps": sorted(names), "maxdepth": depth, "pool": "scripted", "script": script})
     return specs
 
 
@@ -121,7 +166,7 @@ def validate(traces, timeout=1800):
 
 
 def record_and_validate(runner, prop, seed, n, length, tier):
-    specs = make_specs(seed, n, length, tier, prop)
+    specs = make_specs(seed, n, length, tier, prop) + scripted_specs(prop, seed, tier)
     return run_specs(runner, prop, specs)
 
 
